@@ -92,10 +92,7 @@ def point_times(spec):
         for k in ("s", "e"):
             if o.get(k) is not None:
                 ts.add(o[k])
-    for o in spec["objs"]:
-        if o["k"] in ("slur", "tuplet"):
-            pass  # placed on their notes' points
-    return sorted(ts)
+    return sorted(ts)  # slurs and tuplets sit on the points of their notes
 
 
 def segments(spec):
